@@ -52,7 +52,8 @@ class Graph(vf.StateGraph):
     still replayed as the last step of a behaviour) or excluded altogether."""
 
     def cover(self, states_path, groups_path, ban_ops=frozenset(), banned=None, tree_banned=None,
-              max_edges_per_state=None, rnd=None, write_states=True, walks=0, walk_len=8, walk_edges=12):
+              max_edges_per_state=None, rnd=None, write_states=True, walks=0, walk_len=8, walk_edges=12,
+              tree_banned_keep=None):
         banned = banned or (lambda u, k, a: False)
         tree_banned = tree_banned or (lambda u, k, a: False)
         parent = {self.init: None}
@@ -78,6 +79,12 @@ class Graph(vf.StateGraph):
                 path = [{"act": self.out[a][k][0], "to": self.out[a][k][1]} for a, k in pe]
                 ks = [k for k in range(len(self.out[u]))
                       if self.out[u][k][0].get("op") not in ban_ops and not banned(u, k, self.out[u][k][0])]
+                if tree_banned_keep is not None and rnd:
+                    # edges kept out of the tree are executed in a child process each: replay a sample of them
+                    tb = [k for k in ks if tree_banned(u, k, self.out[u][k][0])]
+                    if len(tb) > tree_banned_keep:
+                        drop = set(tb) - set(rnd.sample(tb, tree_banned_keep))
+                        ks = [k for k in ks if k not in drop]
                 if max_edges_per_state and len(ks) > max_edges_per_state and rnd:
                     ks = sorted(rnd.sample(ks, max_edges_per_state))
                 if not ks:
@@ -138,13 +145,13 @@ def colmap(obs):
 
 # --------------------------------------------------------------------------- running a replay
 def run_replay(graph, bins, workdir, env, ban_ops, banned=None, tree_banned=None, shards=1, max_edges_per_state=None,
-               rnd=None, timeout=1100, walks=0, walk_len=8, walk_edges=12):
+               rnd=None, timeout=1100, walks=0, walk_len=8, walk_edges=12, tree_banned_keep=None):
     os.makedirs(workdir, exist_ok=True)
     sp = os.path.join(workdir, "states.ndjson")
     gp = os.path.join(workdir, "groups.ndjson")
     nb, nreach = graph.cover(sp, gp, ban_ops=ban_ops, banned=banned, tree_banned=tree_banned,
                              max_edges_per_state=max_edges_per_state, rnd=rnd, walks=walks, walk_len=walk_len,
-                             walk_edges=walk_edges)
+                             walk_edges=walk_edges, tree_banned_keep=tree_banned_keep)
     cmds, outs = [], []
     for bi, b in enumerate(bins):
         for i in range(shards):
@@ -187,6 +194,24 @@ def enrich(graph, dev):
 
 
 # --------------------------------------------------------------------------- traces
+def build_all(tier, types=None):
+    """replay and record binaries in one parallel build; returns (replay bins, record bins)"""
+    types = types if types is not None else (QUICK_TYPES if tier == "quick" else list(range(9)))
+    jobs, keys = [], []
+    for kind, src in (("replay", "dense_replay.cpp"), ("record", "dense_record.cpp")):
+        for ct in types:
+            for part in (0, 1, 2):
+                if part == 2 and TYPES[ct] == "HEAP":
+                    continue
+                d = ["VF_CT=%d" % ct, "VF_PART=%d" % part, "VF_QUICK=%d" % (1 if tier == "quick" else 0)]
+                jobs.append(dict(name="dense_%s_%s_p%d_%s" % (kind, TYPES[ct].lower(), part, tier[0]), src=src, defines=d))
+                keys.append((kind, ct, part))
+    bins = vf.build_many(jobs, par=PAR)
+    rep = {(ct, part): b for (kind, ct, part), b in zip(keys, bins) if kind == "replay"}
+    rec = {(ct, part): b for (kind, ct, part), b in zip(keys, bins) if kind == "record"}
+    return rep, rec
+
+
 def build_record(tier, types=None):
     types = types if types is not None else (QUICK_TYPES if tier == "quick" else list(range(9)))
     jobs, keys = [], []
@@ -201,10 +226,10 @@ def build_record(tier, types=None):
     return dict(zip(keys, bins))
 
 
-def record_and_validate(ev, fnd, tier, matchers, prop="C09"):
+def record_and_validate(ev, fnd, tier, matchers, prop="C09", bins=None):
     """Random precondition-respecting histories on 8 x 8 matrices over Z_2, Z_5, Z_7 recorded from every instantiation
     and validated by Trace_DenseMatrix.tla.  Returns the list of unexplained rejections."""
-    bins = build_record(tier)
+    bins = bins or build_record(tier)
     work = os.path.join(vf.BUILD, "work", "%s_traces_%d" % (prop, os.getpid()))
     os.makedirs(work, exist_ok=True)
     for f in glob.glob(os.path.join(work, "*.ndjson")):
@@ -239,7 +264,19 @@ def record_and_validate(ev, fnd, tier, matchers, prop="C09"):
     resumed = 0
     for p in (2, 5, 7):
         files = sorted(glob.glob(os.path.join(work, "p%d" % p, "dense_*.ndjson")))
-        todo = files
+        # executions of several configurations are concatenated (every execution starts with a reset event)
+        nsh = max(1, min(PAR, len(files)))
+        shards = []
+        for i in range(nsh):
+            part_files = files[i::nsh]
+            if not part_files:
+                continue
+            q = os.path.join(work, "p%d" % p, "shard_%d.ndjson" % i)
+            with open(q, "w") as out:
+                for f in part_files:
+                    out.write(open(f).read())
+            shards.append(q)
+        todo = shards
         while todo:
             res = vf.validate_traces("Trace_DenseMatrix", "Trace_DenseMatrix_p%d.cfg" % p, todo, par=PAR)
             nxt = []
